@@ -160,6 +160,7 @@ vh::Outcome run_locks(const vh::Case& c, Prop prop) {
                     if (st.ops_in_flight > 0) st.lbl_overlap_ops = true;
                     ScopedInc in_flight_guard(st.ops_in_flight);
                     long mops0 = vrt::me().mutex_ops;
+                    long long w0 = vrt::me().waited_ns;
                     try {
                     // ---------------------------------------------------------------- exclusive handle ops
                     if (kind == O_LOCK || kind == O_TRY_LOCK || kind == O_TRY_LOCK_FOR || kind == O_TRY_LOCK_UNTIL) {
@@ -174,6 +175,7 @@ vh::Outcome run_locks(const vh::Case& c, Prop prop) {
                                 else return w.try_lock();
                             }();
                             if (is_try) st.in_try--;
+                            if (kind == O_TRY_LOCK_FOR && vrt::me().waited_ns - w0 > 3000000LL) vrt::fail("blocked-beyond-timeout", "try_lock_for(3ms) waited longer than the given time (virtual clock)");
                             if (!enabled) {
                                 if (!h) vrt::fail("disabled-null", "acquisition returned a null handle although locking is disabled");
                                 if (vrt::me().mutex_ops != mops0) vrt::fail("disabled-locked", "a mutex operation was executed although locking is disabled");
@@ -273,6 +275,7 @@ vh::Outcome run_locks(const vh::Case& c, Prop prop) {
                                 return w.lock_shared();
                             }();
                             if (is_try) st.in_try--;
+                            if (kind == O_TRY_LOCK_SHARED_FOR && vrt::me().waited_ns - w0 > 3000000LL) vrt::fail("blocked-beyond-timeout", "try_lock_shared_for(3ms) waited longer than the given time (virtual clock)");
                             if (!enabled) {
                                 if (!h) vrt::fail("disabled-null", "shared acquisition returned a null handle although locking is disabled");
                                 if (vrt::me().mutex_ops != mops0) vrt::fail("disabled-locked", "a mutex operation was executed although locking is disabled");
